@@ -235,3 +235,27 @@ PROPS['C01'] = dict(
     assumptions=['every case is deterministic given (VERIF_SEED, case key); a correct tree fails a case with probability < 1e-50 (margin >= 17 sigma at the adversarial limit)'],
     jobs=_c01,
 )
+
+# ------------------------------------------------------------------------------------------------ C04
+def _c04(tier, seed):
+    g = dict(extra_src=['guardalloc.cpp'])
+    jobs = J('c04.cpp', 'optim', 'spqlios-fma', n=13, args=['part=main'], deadline=(100 if tier == 'quick' else 2400), timeout=(300 if tier == 'quick' else 3000))
+    jobs += J('c04.cpp', 'optim', 'spqlios-fma', n=1, args=['part=big'], env={'VF_GUARD': 'after', 'VF_GUARD_BIG': '65536'}, **g)
+    jobs += J('c04.cpp', 'asan', 'nayuki-portable', n=1, args=['part=big'])
+    if tier == 'thorough':
+        for be in ['fftw', 'nayuki-avx', 'spqlios-avx']:
+            jobs += J('c04.cpp', 'optim', be, n=4, args=['part=main'], deadline=2400, timeout=3000)
+        jobs += J('c04.cpp', 'debug', 'nayuki-portable', n=8, args=['part=main'], deadline=2400, timeout=3000)
+    return jobs
+PROPS['C04'] = dict(
+    level='exploration',
+    rule='cases = (group, configuration, input) with the rounded phase p predicted by the harness: trivial samples over all 2N cells (centre + both rounding edges) x 6 mu; n=1: every rounded mask value x boundary set of p; '
+         'seeded/wrap-around masks of dimension n in {2,3,8,9,1100} with b solved so that p hits the target set; general test polynomials (constant, spikes, ramp, seeded) through blindRotateAndExtract[_FFT]; k in {1,2}, '
+         '(l,Bgbit) in {(2,10),(3,7),(4,8),(2,16)}; variants woKS_FFT, FFT, woKS, coefficient-domain; real default keys. oracle: exact sign/coefficient within the analytic FFT+truncation budget (<< mu) with harness-built exact keys; '
+         'sign + |error| < 3/64 with real keys. non-trivial = every case (p adjacent to a boundary or at least one CMux executed)',
+    bounds={'quick': 'targets p in {0,1,2,N-2..N+1,2N-2,2N-1,511,1536}; all 2N cells for trivial samples (mu 1/8,-1/8; boundary cells for the other four); all 2N mask values for n=1; n=1100 under guard pages and ASan; 64 boundary p per default key',
+            'thorough': 'every p in [0,2N) for n<=3, for the FFT test-polynomial sweep and for both default keys; 4 back-ends optim + debug'},
+    assumptions=['exact-key budget: nz*(1+kN)*(2*max(1,Bg/2^10) + 2^(32-l*Bgbit)) units per blind rotation, + kN*2^(31-t*basebit) for the key switch (noiseless harness-built key-switching key)',
+                 'an exact rounding tie in an input coefficient lets the neighbouring p be accepted'],
+    jobs=_c04,
+)
